@@ -556,6 +556,8 @@ CORPUS = [
     '```\nif self.k:\n\\\n    pass\n```',                 # NEW: a backslash continuation line in a fenced block breaks when build_model indents the code
     '```\nx\n```)', '(```\n```)', '```(\nx\n```', '```\nx\n`````', '`````\nx\n```', 'Y = (\n```\n```\n)', 'Y = (X\n```\n```\n)', '```\n```', '``\nx = 1\n``', '```\nx = 1\n ```', ' ```\nx = 1\n```',
     '```\n(\n```\nY = X)', '```\nx``` \n```', '```\nx = 1\n```  # c', '```  # c\nx = 1\n```', '```#\nx = 1\n```',       # boundary cases of fences_clean / FI
+    '```\nx = (1 +\r2)\n```', '```\nx = 1\ry = 2\n```', '```\rx = 1\r```', '```\r\nx = 1\r\n```', '```\nx = 1\x0cy = 2\n```', '```\nx = 1\x85y = 2\n```', '```\nx = 1\x0by = 2\n```',
+    'Y = (X +\r Z)', 'Y = (X +\x0c Z)', 'Y = (X +\x85 Z)', 'Y = (X +\x1c Z)', '(Y =\r\n X)', '`x = 1\ry = 2`', 'Y = X\rZ = W', 'Y = X\x1dZ = W', 'Y = X\x1eZ = W',     # separators other than LF
     'status = 1', 'Y = lags', 'Y = {check}', '`x = 1; from os import *`',                          # NEW: accepted but cannot be built / instantiated
     'Y = ' + '+'.join(['X'] * 3000), 'Y = ' + '-' * 6000 + 'X',                                   # NEW: RecursionError / MemoryError from compile()
     'Y = ' + '(' * 250 + 'X' + ')' * 250, 'Y = X[' + '1' * 5000 + ']',
@@ -573,6 +575,11 @@ def line_mutate(rng, s):
     ls = s.split('\n')
     r = rng.random()
     i = rng.randrange(len(ls))
+    if len(ls) > 1 and rng.random() < 0.2:
+        # ONE line break (possibly inside a fenced block or an open bracket) becomes another separator of str.splitlines
+        k = rng.randrange(1, len(ls))
+        sep = rng.choice(['\r', '\r\n', '\x0b', '\x0c', '\x1c', '\x1d', '\x1e', '\x85', '\n\r'])
+        return '\n'.join(ls[:k]) + sep + '\n'.join(ls[k:])
     if r < 0.45:
         ls.insert(rng.randrange(len(ls) + 1), rng.choice(LINE_INSERTS))
     elif r < 0.55:
